@@ -23,7 +23,8 @@ KEY_CVODE_LOW = "C12:cvode-low-order-global-error"
 
 # ----------------------------------------------------------------------------------------- T-gen
 
-GEN_STATE = {"step_ok": True, "tableau_ok": True}
+GEN_STATE = {"step_ok": True, "tableau_ok": True, "restart_ok": True, "last_good_source": None}
+KEY_RESTART_STATE = "C12:cvode-restart-state-from-failed-attempt"
 
 
 def gen():
@@ -32,7 +33,8 @@ def gen():
     importlib.reload(c12_gen)
     gdir = os.path.join(vlib.COQ, "Gen")
     errs = []
-    for fname, fn, flag in (("Gen_C12_Tableau.v", c12_gen.gen_tableau, "tableau_ok"), ("Gen_C12_Step.v", c12_gen.gen_step, "step_ok")):
+    for fname, fn, flag in (("Gen_C12_Tableau.v", c12_gen.gen_tableau, "tableau_ok"), ("Gen_C12_Step.v", c12_gen.gen_step, "step_ok"),
+                            ("Gen_C12_Restart.v", c12_gen.gen_restart, "restart_ok")):
         p = os.path.join(gdir, fname)
         try:
             vlib.write_if_changed(p, fn(vlib.REPO))
@@ -42,6 +44,12 @@ def gen():
             GEN_STATE[flag] = False
             vlib.write_if_changed(p, "(* translator refused: %s *)\nDefinition translator_refused := tt.\n" % str(ex).replace("*)", "* )"))
             errs.append("%s: %s" % (fname, ex))
+    try:
+        import re
+        m = re.search(r"g_cv_last_good_source : nat := (\d+)", open(os.path.join(gdir, "Gen_C12_Restart.v")).read())
+        GEN_STATE["last_good_source"] = int(m.group(1)) if m else None
+    except Exception:
+        GEN_STATE["last_good_source"] = None
     if errs:
         raise c12_gen.Refuse("; ".join(errs))
 
@@ -229,6 +237,18 @@ def variants(sc, rng, full):
              ("rk3_bad", ["-runge_kutta 3", "-bad_step_max 2000"]),
              ("rk6_div", ["-runge_kutta 6", "-step_divide 10"]),
              ]
+    # small per-call step budgets: the budget runs out several times inside one kinetic step, so run_reactions has to
+    # continue from cvode_last_good_y for the remaining time (RESTART loop).  Only when CVStep takes that state from the
+    # accepted solution zn[0] (regenerated flag g_cv_last_good_source = 0); with the work vector y about one small-budget
+    # run in six is wrong on the unchanged code (finding C12:cvode-restart-state-from-failed-attempt), then only the fixed
+    # continuation corpus is run.  Every continuation restarts at order 1 and adds its own local error, so the error grows
+    # with the number of continuations: budgets >= 12 for tol >= 1e-8, >= 20 for 1e-9, >= 25 below (observed max 30 tol).
+    if GEN_STATE.get("last_good_source") == 0 and sc["family"] != "shipped":
+        tv = float(sc["tol"])
+        lo = 12 if tv >= 0.99e-8 else (20 if tv >= 0.99e-9 else 25)
+        for _ in range(2):
+            nb = rng.randint(lo, 40)
+            integ.append(("cvode_b%d" % nb, ["-cvode true", "-cvode_steps %d" % nb, "-bad_step_max 5000"]))
     # sub-domain for low BDF orders (see notes/C12.md, finding C12:cvode-low-order-global-error): CVODE bounds the
     # LOCAL error by tol, the global error grows like (number of steps) x tol, unboundedly for low orders as tol -> 0
     tolv = float(sc["tol"])
@@ -245,6 +265,9 @@ def variants(sc, rng, full):
     else:
         pairs = [(divisions[0], i) for i in integ[:5]] + [(d, rng.choice(integ)) for d in divisions[1:]]
         pairs += [(rng.choice(divisions), rng.choice(integ)) for _ in range(2)]
+        small = [i for i in integ if i[0].startswith("cvode_b")]
+        if small:
+            pairs += [(divisions[0], small[0]), (rng.choice(divisions[1:]), small[-1])]
     seen = set()
     for (dn, d), (iname, iopts) in pairs:
         if (dn, iname) in seen:
@@ -430,7 +453,8 @@ def analyse(sc, vs, results, checks, info):
                     checks.append(("check_closed %s %s %s %s" % (cfs[n], vlib.coq_Q(t), vlib.coq_Q(m), bound),
                                    dict(base, what="%s(t=%g) vs closed form, 100*tol=%g" % (n, t, float(100 * tol)), observed=m, expected=py[n])))
                 info["max_err_over_tol"] = max(info["max_err_over_tol"], abs(m - max(py[n], 0.0)) / float(tol))
-                info["err_by_integ"].setdefault(v["name"].split("/")[1], []).append(abs(m - max(py[n], 0.0)) / float(tol))
+                iname = v["name"].split("/")[1]
+                info["err_by_integ"].setdefault("cvode_small_budget(12..40)" if iname.startswith("cvode_b") else iname, []).append(abs(m - max(py[n], 0.0)) / float(tol))
             if shipped:
                 prev = vals
                 reached.setdefault(round(t, 6), []).append((v["name"], vals))
@@ -741,6 +765,62 @@ def low_order_probe(ctx):
                        "expected": [py["Aa"], py["Bb"]], "scenario": sc, "variant": v["name"]})
 
 
+CONT_SC = {"family": "chain", "tol": "1e-8", "a0": "0.01", "b0": "0.005", "k1": "0.001", "k2": "0.0005", "T": 3000,
+           "incs": ["1000", "1000", "1000"], "nequal": 3}
+# budgets for which the UNREPAIRED CVStep (restart state copied from the work vector y) integrates too far on CONT_SC
+CONT_BAD_WITH_Y = (12, 14, 19, 22, 34)
+
+
+def continuation_corpus(ctx):
+    """fixed corpus: chain A->B over 3000 s, tol 1e-8, -cvode_steps 9..44: the step budget runs out 2..15 times inside the single
+    kinetic step; every budget must give the closed form within 100 tol.  Budget 12 is the fixed probe of the finding
+    'restart state from a failed attempt' (own stable key)."""
+    sc = CONT_SC
+    src_flag = GEN_STATE.get("last_good_source")
+    budgets = [b for b in range(9, 45)]
+    jobs, vs = [], {}
+    for b in budgets:
+        v = {"name": "single/cvode_b%d" % b, "steps": "3000", "incr": False, "list": ["3000"], "eq": False, "cnt": 1,
+             "opts": ["-cvode true", "-cvode_steps %d" % b, "-bad_step_max 5000"], "id": "cont-%d" % b}
+        v["text"] = input_text(sc, v)
+        vs[b] = v
+        jobs.append({"id": v["id"], "db": "phreeqc.dat", "text": v["text"]})
+    res = vlib.run_inputs(jobs, timeout_each=60, workers=min(6, vlib.NCPU))
+    cfs = closed_forms_coq(sc)
+    exprs, metas = [], []
+    for b in budgets:
+        r = res.get(vs[b]["id"]) or {}
+        rows = rows_of(r) if r.get("rc") == 0 else []
+        if not rows:
+            ctx.notes.append("continuation corpus: -cvode_steps %d gave no rows (rc=%s %s)" % (b, r.get("rc"), (r.get("err") or "")[:60]))
+            continue
+        row = rows[-1]
+        py = closed_forms_py(sc, row["time"])
+        for n in ("Aa", "Bb"):
+            exprs.append("check_closed %s %s %s %s" % (cfs[n], vlib.coq_Q(row["time"]), vlib.coq_Q(row["k_" + n]), vlib.coq_Q(100 * fr(sc["tol"]))))
+            metas.append((b, n, row["k_" + n], py[n]))
+    bad = {}
+    for (b, n, obs, exp), ok in zip(metas, coq_bools(exprs)):
+        ctx.case("continuation:%d:%s" % (b, n), sample={"continuation corpus": "-cvode_steps %d" % b, "reactant": n, "observed": obs, "exact": exp, "accepted": bool(ok)})
+        if ok is None:
+            ctx.obligation("coq-evaluation-of-continuation-corpus", False, "corpus cases did not evaluate")
+        elif not ok:
+            bad.setdefault(b, []).append((n, obs, exp))
+    for b, lst in sorted(bad.items()):
+        what = "; ".join("%s(3000) = %.6e, exact %.6e (%.0f tol)" % (n, o, e, abs(o - e) / 1e-8) for n, o, e in lst)
+        rp = {"kind": "input", "database": "phreeqc.dat", "input_text": vs[b]["text"], "scenario": sc, "variant": vs[b]["name"],
+              "observed": [o for _, o, _ in lst], "expected": [e for _, _, e in lst]}
+        if src_flag == 1 and b in CONT_BAD_WITH_Y:
+            # the known defect of the unrepaired code (CVStep copies the restart state from the work vector y)
+            ctx.violation(KEY_RESTART_STATE, "chain A->B, T 3000 s, tol 1e-8, -cvode true -cvode_steps %d -bad_step_max 5000: %s; the continuation after an "
+                          "exhausted step budget starts from the rejected iterate of a failed step attempt but is credited only the time of the step start" % (b, what), rp)
+        else:
+            ctx.violation("C12:continuation:%d" % b, "CVODE continuation calls (-cvode_steps %d exhausted inside one kinetic step): %s" % (b, what), rp)
+    if src_flag == 1:
+        ctx.notes.append("CVStep copies cvode_last_good_y from the work vector y (g_cv_last_good_source = 1): random small -cvode_steps budgets are NOT generated, "
+                         "only the fixed continuation corpus (budgets %s excluded from the verdict by the known finding)" % (CONT_BAD_WITH_Y,))
+
+
 # ----------------------------------------------------------------------------------------- entry points
 
 def finish_info(ctx):
@@ -774,10 +854,16 @@ def replay(ctx):
         ctx.rule = "replay of a proof obligation: rebuild Props/Properties_C12.vo against regenerated Gen files"
         return
     key = rp.get("key", "")
+    try:
+        gen()          # sets the regenerated flags the generators depend on
+    except Exception as ex:
+        ctx.notes.append("translator refused during replay: %r" % (ex,))
     if key in (KEY_CVODE_TIME, KEY_RK1_TIME):
         known_probes(ctx)
     elif key == KEY_CVODE_LOW:
         low_order_probe(ctx)
+    elif key == KEY_RESTART_STATE or key.startswith("C12:continuation:"):
+        continuation_corpus(ctx)
     elif "column" in rp:
         replay_column(ctx, rp)
     else:
@@ -801,6 +887,7 @@ def run(ctx):
     vlib.log("[C12] coq stage %.1fs" % (t0 - ctx.t0))
     known_probes(ctx)
     low_order_probe(ctx)
+    continuation_corpus(ctx)
     vlib.log("[C12] probes %.1fs" % (time.time() - t0)); t0 = time.time()
     run_traces(ctx, ctx.n(12, 120))
     vlib.log("[C12] traces %.1fs" % (time.time() - t0)); t0 = time.time()
